@@ -41,7 +41,7 @@ def dur(s):
 def cells_and_config():
     """-> (cells, methodConfig list, services {name: [rpc names]})"""
     cells, entries = [], []
-    svcs = {'Ret': [], 'Ret2': []}
+    svcs = {'Ret': [], 'Ret2': [], 'admin.Admin': []}
     n = 0
 
     def rpc(svc='Ret'):
@@ -60,7 +60,8 @@ def cells_and_config():
             e['retryPolicy'] = dict(POLICIES[policy], retryableStatusCodes=list(codes))
         entries.append(e)
         for s, m in targets:
-            cells.append(dict(id=f'{cid}' + (f'@{s}.{m}' if len(targets) > 1 else ''), service=s, rpc=m, py=m.lower(),
+            cells.append(dict(id=f'{cid}' + (f'@{s}.{m}' if len(targets) > 1 else ''), service=s.split('.')[-1], rpc=m, py=m.lower(),
+                              package=names.import_package(P) + ('.' + s.split('.')[0] if '.' in s else ''),
                               codes=list(codes) if with_policy else [], policy=POLICIES[policy] if with_policy else None,
                               timeout=dur(timeout), named=True))
 
@@ -77,10 +78,13 @@ def cells_and_config():
     entry('two-methods', ['UNAVAILABLE'], targets=[('Ret', rpc()), ('Ret', rpc())])
     entry('two-services', ['INTERNAL'], timeout='7s', targets=[('Ret', rpc()), ('Ret2', rpc('Ret2'))])
     entry('no-codes', [], timeout='9s')
+    # a service declared in a proto sub-package of the API
+    entry('subpackage-service', ['ABORTED'], policy='fractional', timeout='3s', targets=[('admin.Admin', rpc('admin.Admin'))])
     # methods that no entry names
     for svc in ('Ret', 'Ret2'):
         m = rpc(svc)
-        cells.append(dict(id=f'unnamed/{svc}', service=svc, rpc=m, py=m.lower(), codes=[], policy=None, timeout=None, named=False))
+        cells.append(dict(id=f'unnamed/{svc}', service=svc, rpc=m, py=m.lower(), codes=[], policy=None, timeout=None, named=False,
+                          package=names.import_package(P)))
     # an entry naming only the service (nothing is demanded of its methods: observed, not judged)
     entries.append({'name': [{'service': f'{P}.Ret2'}], 'timeout': '11s',
                     'retryPolicy': dict(TYPICAL, retryableStatusCodes=['UNAVAILABLE'])})
@@ -90,9 +94,14 @@ def cells_and_config():
 def build():
     cells, entries, svcs = cells_and_config()
     msgs = [message('Req', [field('name', 1, 'string')]), message('Resp', [field('ok', 1, 'bool')])]
-    services = [service(s, [method(m, Q('Req'), Q('Resp')) for m in ms]) for s, ms in svcs.items()]
+    services = [service(s, [method(m, Q('Req'), Q('Resp')) for m in ms]) for s, ms in svcs.items() if '.' not in s]
     f = file('acme/retry/v1/retry.proto', P, messages=msgs, services=services)
-    req = request([f], 'transport=grpc,autogen-snippets=false,retry-config=@retry.json@')
+    sub = file('acme/retry/v1/admin/admin.proto', P + '.admin',
+               services=[service('Admin', [method(m, Q('Req'), Q('Resp')) for m in svcs['admin.Admin']])])
+    std = desc.std_dep_names()
+    f.dependency.extend(std)
+    sub.dependency.extend(std + [f.name])
+    req = request([f, sub], 'transport=grpc,autogen-snippets=false,retry-config=@retry.json@')
     desc.gate(req)
     return req, {'retry.json': json.dumps({'methodConfig': entries}, indent=1)}, cells
 
